@@ -114,6 +114,12 @@ def main(argv=None):
                                       sha256=u['sha256'], rules=['%s: %s' % (a_, b_) for a_, b_ in u['rules']], obligations=n,
                                       labels=[lb['label'] for lb in mp['labels'] if lb['unit'] == u['unit'] and lb['label']
                                               and pid in label_props(lb)]))
+        if g in P.get('lemma_groups', []):
+            # property-level lemmas over the spec functions (contract |= property): every proof fn of the group counts
+            n = r.get('obligations_prelude', 0)
+            total_obl += n
+            unit_rows.append(dict(unit='lemmas of group %s' % g, group=g, source='prelude/*.rs (spec-level proof functions, no code)', obligations=n,
+                                  labels=P.get('lemma_names', [])))
         for lb in mp['labels']:
             if lb['label'] and pid in label_props(lb) and len(samples) < 6:
                 samples.append(dict(obligation=lb['label'], unit=lb['unit'], kind=lb['kind'], clause=lb['text'][:300], backend='verus/z3'))
